@@ -208,6 +208,8 @@ def run_property(prop, tier, builders, seed=0, replay_fn=None, known=None, level
     ev = {"property_id": prop, "tier": tier, "seed": seed, "level": level, "coverage": {}, "assumptions": [],
           "wall_s": 0.0, "violations": 0}
     violations = []
+    lemma_failures = []
+    lemma_notes = []
     known_printed = []
     undecided = []
     kbs = []
@@ -303,7 +305,10 @@ def run_property(prop, tier, builders, seed=0, replay_fn=None, known=None, level
                 if cls == "D":
                     undecided.append("%s: dfcc library check failed: %s %s" % (t.name, name, text))
                     continue
-                violations.append((kb, t, pr, cls, name, text))
+                if cls == "L":
+                    lemma_failures.append((kb, t, pr, cls, name, text))
+                else:
+                    violations.append((kb, t, pr, cls, name, text))
             else:
                 undecided.append("%s: %s status %s" % (t.name, name, st))
         if t.canary and (canary_seen == 0 or canary_failed != canary_seen):
@@ -318,6 +323,33 @@ def run_property(prop, tier, builders, seed=0, replay_fn=None, known=None, level
             bounded_fns.append("%s bounded(%s)%s" % (t.fn, t.unwind, " " + t.bounded_note if t.bounded_note else ""))
         else:
             functions.append(t.fn)
+
+    # L-class failures (helper lemmas / loop invariants stronger than the property, DESIGN 4):
+    # never a violation by themselves.  If the failing function's contract is *used* by another
+    # target (replaced call) or the failure is a loop invariant, the dependent proofs are void:
+    # look for a real failing input natively; found -> violation, not found -> undecided.
+    replaced_anywhere = set()
+    for kb, t, r in results:
+        replaced_anywhere.update(t.replace)
+    for kb, t, pr, cls, name, text in lemma_failures:
+        fnname = (pr.get("sourceLocation") or {}).get("function") or t.fn
+        kind = name.split(".")[1] if "." in name else ""
+        needed = fnname in replaced_anywhere or kind.startswith("loop_")
+        if not needed:
+            lemma_notes.append("%s: helper lemma no longer holds (%s %s) - not used by any other proof, property obligations unaffected" % (t.name, name, text[:160]))
+            print("NOTE property=%s lemma-failed %s" % (prop, lemma_notes[-1]))
+            continue
+        rr = None
+        if replay_fn:
+            try:
+                rr = replay_fn(kb, t, pr, {}, [], {})
+            except Exception as e:
+                rr = {"error": repr(e)}
+        if rr and rr.get("reproduced"):
+            violations.append((kb, t, pr, cls, name, text))
+        else:
+            undecided.append("%s: lemma %s failed and the proofs depending on it are void; native search found no failing input (%s)"
+                             % (t.name, name, text[:200]))
 
     # static facts
     static = []
@@ -409,6 +441,7 @@ def run_property(prop, tier, builders, seed=0, replay_fn=None, known=None, level
         "unverified": unverified,
         "known_findings_printed": known_printed,
         "undecided": undecided,
+        "lemma_notes": lemma_notes,
         "samples": samples[:40],
     }
     ev["coverage"] = cov
